@@ -63,9 +63,9 @@ def seeds():
     missed_first = sum(1 for m in metas if "first missed" in (m.get("note") or ""))
     refined = sum(1 for m in metas if (m.get("note") or "") and "first missed" not in (m.get("note") or "") and "as first written" not in (m.get("note") or ""))
     caught_now = sum(1 for m in metas if m.get("caught"))
-    head = ("%d seeded changes (%d properties, %d of them a second, independent change for the same property): all %d are reported by the "
-            "quick check of their property today. %d were reported by the rules as first written, %d needed a refinement of an "
-            "existing rule, and %d were first missed — each of those showed a clause that is decidable from the shape of the code and "
+    head = ("%d seeded changes (%d properties, %d of them a second, independent change for the same property): %d are reported by the "
+            "quick check of their property today and one is recorded as not caught (C06b, see §17). %d were reported by the rules as "
+            "first written, %d needed a refinement of an existing rule, and %d were first missed — each of those showed a clause that is decidable from the shape of the code and "
             "had not been implemented; the rule was added (last column), run on the unchanged tree (silent, or a genuine finding "
             "that was then repaired — §14) and the seed re-run." %
             (total, len(set(m["property"] for m in metas)), total - len(set(m["property"] for m in metas)), caught_now,
